@@ -519,7 +519,8 @@ def run(tier, seed, replay_cases=None):
                       "std float conversions are Section variables: dec_parse (str::parse::<f64> on decimal texts) and dec_fmt (f64::to_string on finite values); "
                       "in the correspondence run they are instantiated per case with what std itself answered in the harness for DECIMAL texts only; "
                       "prefixed, zero, inf/nan forms are computed by the model",
-                      "IEEE-754: `u64 as f64` rounds to nearest, ties to even (modelled as u64_as_f64, proved correctly rounded, sampled incl. all tie shapes)",
+                      "IEEE-754: `u64 as f64` rounds to nearest, ties to even (modelled as u64_as_f64, proved correctly rounded, sampled incl. all tie shapes); "
+                      "`x * 2f64.powi(n)` for a positive normal x is exact scaling, +inf beyond the finite range (modelled as f64_scale2, sampled with texts up to 1100 bits)",
                       "translator (names.py, spec.py, regexes.py) copies the tables; harness + hook H3 (three pub wrappers)"],
         checker_cmd="make -C coq Properties/C20.vo && Print Assumptions per theorem; avh values run | coqc cases",
         assumptions=["float round trip: forall finite x, f64_from_str dec_parse (dec_fmt x) = Some x  (std: shortest repr round-trips) — hypothesis of C20_format_parse_float",
